@@ -202,6 +202,11 @@ class OfxgetWorld:
                     out.append(out[ch.pick(label + ".dupof", len(out))])      # the same account twice
                     continue
                 ln = 1 + ch.geometric(label + ".idlen", 4, 21)      # ids up to 22 characters
+                if ch.flag(label + ".overlong", 0.05):
+                    ln = 23 + ch.pick(label + ".overlong.n", 10)     # longer than the spec's 22: accepted with a warning
+                if out and len(out[-1]) >= 22 and ch.flag(label + ".prefix_twin", 0.5):
+                    out.append(out[-1][:22] + "-" + str(len(out)))   # shares its first 22 characters with the previous one
+                    continue
                 # (no leading "-": argparse would take it for an option and the run would end in a usage error)
                 aid = "".join(ACCT_ALPHA[ch.pick(label + ".ch", len(ACCT_ALPHA) - (1 if k == 0 else 0))] for k in range(ln))
                 if ln >= 3 and ch.flag(label + ".blank", 0.1):
@@ -833,7 +838,11 @@ def draw_accounts(world):
         kind = ["bank", "cc", "inv", "bp"][ch.weighted("acct.kind", [4, 4, 4, 1])]
         status = ["ACTIVE", "PEND", "AVAIL"][ch.weighted("acct.status", [3, 1, 1])]
         ln = 1 + ch.geometric("acct.idlen", 4, 19)
+        if ch.flag("acct.overlong", 0.05):
+            ln = 23 + ch.pick("acct.overlong.n", 8)          # longer than the spec's 22 characters
         acctid = "".join(ACCT_ALPHA[ch.pick("acct.ch", len(ACCT_ALPHA))] for _ in range(ln)) + str(i)
+        if spec and len(spec[-1]["acctid"]) >= 22 and ch.flag("acct.prefix_twin", 0.5):
+            acctid = spec[-1]["acctid"][:22] + "-" + str(i)  # shares its first 22 characters with the previous one
         if spec and ch.flag("acct.shared_number", 0.1):
             acctid = spec[ch.pick("acct.shared_of", len(spec))]["acctid"]     # same number under another type/class
         a = {"kind": kind, "acctid": acctid, "status": status}
